@@ -108,6 +108,21 @@ inductive Step where
   | pair (p l r : Nat) (out : List Ix)
 deriving Repr
 
+/-- the live keys after a step (`temps.pop(l)`, `temps.pop(r)`, `temps[p] = …`) -/
+def keysStep (ks : List Nat) : Step → List Nat
+  | .pre i _ => i :: ks.filter (· != i)
+  | .pair p l r _ => p :: ((ks.filter (· != l)).filter (· != r)).filter (· != p)
+
+/-- executable well-formedness of a program against the live keys: the key written by a pairwise
+    step is not live (a new intermediate).  That the operands *are* live is checked by the
+    interpreter itself (`none` = `KeyError`). -/
+def wfB : List Step → List Nat → Bool
+  | [], _ => true
+  | st :: rest, ks =>
+    (match st with
+     | .pre _ _ => true
+     | .pair p l r _ => !((ks.filter (· != l)).filter (· != r)).contains p) && wfB rest (keysStep ks st)
+
 /-- the dictionary `temps`: live intermediates by key -/
 abbrev Temps (α : Type) := List (Nat × Tensor α)
 
